@@ -1,22 +1,28 @@
 (* C04 — Lines fit the width, are greedily filled, and truncation is honoured.  Property theorems only.
-   Proved: soundness of the fit classification, the truncation bookkeeping of postProcessLine, truncation_lines (with
-   TruncateAfterLines = k >= 1 at most k lines are returned, any number of WrapNextLine calls with any widths, and
-   WrapParagraph), and width_bound_partial (Proofs/WrapWidth.v): for every WrapNextLine call from a state reached by
-   Prepare + any calls, whose entry store has non-negative advances / letter spacing (the property's sign hypothesis) and
-   input runs with Advance = sum of their glyph advances (excludes F6), the returned line measured by Spec/Wrap.v
-   line_measure ON THE RETURNED STORE is within maxWidth (within maxWidth - ceil(truncator advance) when the truncator was
-   appended), or the line holds no UAX #14 opportunity at a cluster boundary strictly inside (recorded under cannotFit), or
-   it is the whole-run prefix recorded on the truncated line (F8 pattern: text ends at the boundary between two input runs).
-   The greedy clause is FALSE of the faithful model (Findings/Wrap.v: f7_refuted) and the width clause is false on the
-   truncated line (f8_width_refuted).
+   Proved for every input: soundness of the fit classification, the truncation bookkeeping of postProcessLine,
+   truncation_lines (TruncateAfterLines = k >= 1: at most k lines over any number of WrapNextLine calls with any widths, and
+   from WrapParagraph), width_bound_partial (Proofs/WrapWidth.v) and, for BreakPolicy Never, width_bound_never_partial and
+   greedy_partial (Proofs/WrapGreedy.v).
+   width_bound_partial: for every WrapNextLine call from a state reached by Prepare + any calls, whose entry store has
+   non-negative advances / letter spacing (the property's sign hypothesis) and input runs with Advance = sum of their glyph
+   advances (excludes F6), the returned line measured by Spec/Wrap.v line_measure ON THE RETURNED STORE is within maxWidth,
+   or holds no UAX #14 opportunity at a cluster boundary strictly inside (recorded under cannotFit); when the truncator was
+   appended the text is empty or within maxWidth - ceil(truncator advance) - the former exception "whole-run prefix on the
+   truncated line" (finding F8) is gone since the library fix 5102a36, which the model follows.
    What keeps width_bound "_partial": (1) hypothesis adv_consistent on the call's entry store (F6; same guard as Check/C04.v);
-   (2) hypothesis WI (Proofs/WrapWidth.v): the UAX #14 iterator has not consumed a valid line boundary beyond the line start
-   — true after Prepare (WI_prepare) and broken exactly by the dropped candidate of F37; its preservation by calls that
-   return a non-nil line is not proved; (3) the F8 disjunct on the truncated line; (4) for policies other than Never the
-   proved exception is "no valid UAX #14 opportunity strictly inside the line", weaker than the property's "single grapheme
-   cluster" — the gap is the grapheme iterator's skipping rule (F7).  Under Never the exception is exactly the property's.
-   NOT proved: greedy_partial. *)
-From TV Require Import Model.Wrap Spec.Wrap Proofs.Wrap Proofs.WrapLines Proofs.WrapTrunc Proofs.WrapWidth.
+   (2) for policies other than Never, hypothesis WI (the UAX #14 iterator has not consumed a valid line boundary beyond the
+   line start: true after Prepare, broken exactly by the dropped candidate of F37) and the exception proved is "no valid
+   UAX #14 opportunity strictly inside the line", weaker than the property's "single grapheme cluster" (the gap is the
+   grapheme iterator's skipping rule, F7).
+   Under BreakPolicy Never the grapheme fallback is never entered: WI is an invariant of every call (run_calls_never), so
+   width_bound_never_partial has no iterator hypothesis and its exception is exactly the property's single unbreakable
+   unit (Spec/Wrap.v single_unit), and greedy_partial states the greedy clause: a line returned with the wrapper still
+   live ends at a mandatory break / at the first option of a unit that cannot fit, or the next valid UAX #14 opportunity
+   after it was tried and the line extended to it measures more than maxWidth (Spec/Wrap.v line_measure of the exact pieces
+   on the call's entry store, i.e. before the start letter spacing of the first glyph is trimmed).
+   The greedy clause for policies WhenNecessary / Always is FALSE of the faithful model (Findings/Wrap.v: greedy_refuted,
+   F7) and stays with the oracle greedy_ok. *)
+From TV Require Import Model.Wrap Spec.Wrap Spec.WrapGreedy Proofs.Wrap Proofs.WrapLines Proofs.WrapTrunc Proofs.WrapWidth Proofs.WrapGreedy.
 
 (* Whenever processBreakOption classifies a candidate, the classification agrees with the measured width
    (advanceSpaceAware of the candidate + advance of the runs already on the line, rounded up): fits / endLine
@@ -82,8 +88,8 @@ Proof. split; [split; [reflexivity|repeat constructor]|]. split; [cbn; lia|]. vm
    (input runs still carry Advance = sum: excludes the aliasing of F6, as the oracle does); WI (no valid UAX #14 boundary
    beyond the line start was consumed: holds after Prepare, broken by the nil line of F37).  Conclusion
    (width_bound_stmt), with m = ceil(line_measure on the RETURNED store), s = line start, e = NextLine:
-   * truncator appended:  s = e (no text)  or  m <= mw - ceil(truncator advance)  or  e is the boundary between two input
-     runs strictly inside the text (run_boundary_inside = Check/C03.v interior_run_boundary: the F8 pattern);
+   * truncator appended:  s = e (no text)  or  m <= mw - ceil(truncator advance): text + truncator fit maxWidth (the
+     F8 exception of earlier versions is gone with the library fix 5102a36);
    * otherwise:  m <= mw  or  no position strictly inside (s, e) is a UAX #14 opportunity at a cluster boundary of every
      run (under policy Never this is exactly "single unbreakable unit": Spec/Wrap.v single_unit). *)
 Theorem width_bound_partial : forall n w cfg attrs runs widths wk rs mw w' wl d line,
@@ -132,5 +138,70 @@ Example width_bound_example :
 Proof.
   cbv zeta. split; [vm_compute; reflexivity|]. split; [vm_compute; reflexivity|]. split; [vm_compute; reflexivity|].
   split; [vm_compute; discriminate|]. split; [apply WI_prepare|]. split; [reflexivity|]. split; [reflexivity|].
+  split; vm_compute; eexists _, _; repeat split; reflexivity.
+Qed.
+
+(* ---- BreakPolicy Never (Proofs/WrapGreedy.v) ------------------------------------------------------------------------ *)
+
+(* width_bound for BreakPolicy Never, without the iterator hypothesis: Prepare on well-formed runs with policy Never, ANY
+   sequence of WrapNextLine calls with any widths reaching a live state wk, one more call with maxWidth mw returning a
+   non-nil line.  Hypotheses on the entry store of that call: nonneg_adv (the property's sign hypothesis), adv_consistent
+   (excludes the aliasing of F6, as the oracle does) and the truncator's glyph array after the runs' arrays.  With
+   m = ceil(line_measure on the RETURNED store): truncator appended -> no text or m <= mw - ceil(truncator advance);
+   otherwise m <= mw or the line is a single unbreakable unit exactly as the oracle evaluates it (Spec/Wrap.v single_unit
+   with policy 1).  "_partial" only because of the adv_consistent guard (F6). *)
+Theorem width_bound_never_partial : forall n w cfg attrs runs widths wk rs mw w' wl d line,
+  wf_runs (w_st w) runs n = true -> zlen attrs - 1 = n -> 1 <= n -> c_policy cfg = 1 ->
+  run_calls (prepare w cfg attrs runs 0 0) widths = Ok (wk, rs) -> w_more wk = true ->
+  zlen runs <= o_src (c_truncator (w_cfg wk)) ->
+  nonneg_adv (w_st wk) = true -> adv_consistent (w_st wk) runs = true ->
+  wrap_next_line wk mw = Ok (w', wl, d) -> wl_line wl = Some line ->
+  let tsrc := o_src (c_truncator (w_cfg wk)) in
+  let m := ceil26 (line_measure (w_st w') tsrc (c_dir (w_cfg wk)) line) in
+  (has_truncator tsrc line = true -> w_start wk = wl_next wl \/ m <= mw - ceil26 (o_adv (c_truncator (w_cfg wk))))
+  /\ (has_truncator tsrc line = false -> m <= mw \/ single_unit attrs (w_st wk) runs n 1 (w_start wk) (wl_next wl) = true).
+Proof. exact width_bound_never_calls. Qed.
+Print Assumptions width_bound_never_partial.
+
+(* greedy (partial: BreakPolicy Never; measure on the entry store).  Same quantification: Prepare with policy Never on
+   well-formed runs, ANY calls with any widths to a live state wk, one more call with maxWidth mw that leaves the wrapper
+   live (done = false).  Then the call returned a non-nil line [s, e) = [lineStart, NextLine) and
+   (Spec/WrapGreedy.v greedy_never_stmt), with q = the position after the last option the line iterator read:
+   * no option is pending for the next line: e = q, and that option was required (a mandatory break ended the line) or no
+     valid UAX #14 opportunity lies strictly inside the line (the single unit that cannot fit);
+   * an option is pending (it was tried and rejected): e < q, NO valid UAX #14 opportunity lies strictly between e and q
+     - q is the next permitted break after the line end - and the line extended to q is too wide: the runes [s, q) placed
+     as the exact pieces of the input runs (piece_ok) measure more than mw by Spec/Wrap.v line_measure on the call's
+     entry store (extended_line_too_wide).
+   A line returned with done = true ends the text or is the truncated line.  Missing for the full clause: policies
+   WhenNecessary / Always (refuted in general: F7), and the measure is taken before the wrapper trims the start letter
+   spacing of the first glyph of the line (equal to the wrapper's own measure when no letter spacing is applied). *)
+Theorem greedy_partial : forall n w cfg attrs runs widths wk rs mw w' wl,
+  wf_runs (w_st w) runs n = true -> zlen attrs - 1 = n -> 1 <= n -> c_policy cfg = 1 ->
+  run_calls (prepare w cfg attrs runs 0 0) widths = Ok (wk, rs) -> w_more wk = true ->
+  nonneg_adv (w_st wk) = true -> adv_consistent (w_st wk) runs = true ->
+  wrap_next_line wk mw = Ok (w', wl, false) ->
+  (exists line, wl_line wl = Some line)
+  /\ greedy_never_stmt attrs (w_st wk) runs (c_dir (w_cfg wk)) (w_start wk) (wl_next wl) mw
+       (b_isUnusedW (w_br w')) (b_wpos (w_br w')) (snd (b_unusedW (w_br w'))).
+Proof. exact greedy_never_calls. Qed.
+Print Assumptions greedy_partial.
+
+(* non-vacuity: "a SP b" + "c" under policy Never at maxWidth 1: the call returns [0,2) and stays live; the option before
+   the text end (q = 4) was tried, rejected and is pending; at maxWidth 1000 the call is done (whole text on the line) *)
+Example greedy_example :
+  let st := [[mkGlyph 0 1 1 64 64 0 0 0; mkGlyph 1 1 1 64 0 0 0 0; mkGlyph 2 1 1 64 64 0 0 0]; [mkGlyph 3 1 1 64 64 0 0 0]; []] in
+  let runs := [mkOut 192 0 0 3 0 0 3 0; mkOut 64 0 3 1 1 0 1 0] in
+  let cfg := mkCfg 0 0 (mkOut 0 0 0 0 2 0 0 0) false 1 false in
+  let attrs := [4; 4; 5; 4; 7] in
+  let wk := prepare (w_zero st) cfg attrs runs 0 0 in
+  wf_runs st runs 4 = true /\ nonneg_adv st = true /\ adv_consistent st runs = true /\ c_policy cfg = 1
+  /\ run_calls wk [] = Ok (wk, []) /\ w_more wk = true
+  /\ (exists w' wl, wrap_next_line wk 1 = Ok (w', wl, false) /\ wl_next wl = 2
+         /\ b_isUnusedW (w_br w') = true /\ b_wpos (w_br w') = 4)
+  /\ (exists w' wl, wrap_next_line wk 1000 = Ok (w', wl, true) /\ wl_next wl = 4).
+Proof.
+  cbv zeta. split; [vm_compute; reflexivity|]. split; [vm_compute; reflexivity|]. split; [vm_compute; reflexivity|].
+  split; [reflexivity|]. split; [reflexivity|]. split; [reflexivity|].
   split; vm_compute; eexists _, _; repeat split; reflexivity.
 Qed.
